@@ -57,6 +57,19 @@ def run(ctx):
                 ctx.verdict(ok, "R12.1", f, "into_parts-hands-out-the-view", f.loc(), "the vector returned by into_parts depends on self.%s" % param,
                             "`%s` returns `%s`, which does not depend on the adapter's %s: the next stage starts from the adapter's internal copy of the source, not from its current view (e.g. dynamic_%s(..).filter(..) starts with every item although the view is empty until a %s arrives)" % (
                                 f.path, fmt(e[5][0] if e[0] == "agg" else e, 4), param, m.group(1), param))
+            if m.group(1) == "skip":
+                # while no count has arrived the skip view is empty: None must not be collapsed into a number
+                collapses = [(blk, t) for blk, t in b.calls(r"Option::<usize>::(unwrap_or|unwrap_or_default|unwrap_or_else|map_or|map_or_else)$") if contains(b.expr_of_op(t["args"][0]), lambda x: x[0] == "field" and x[2] == "count") and b.locals[t["dest"]["l"]]["ty"] == "usize"]
+                sw_none = any(contains(b.expr_of_op(t["args"][0]), lambda x: x[0] == "field" and x[2] == "count") for _, t in b.calls(r"Option::<usize>::(map_or|map_or_else|map)$"))
+                for blk in sorted(b.reachable()):
+                    info = conds.switch_info(b, blk)
+                    if info and info["kind"] == "variant" and contains(info["subject"], lambda x: x[0] == "field" and x[2] == "count"):
+                        sw_none = True
+                if collapses:
+                    ctx.violated("R12.1", f, "skip-view-empty-until-count", b.line_at((collapses[0][0], 10 ** 6)),
+                                 "`%s` treats a count that has not arrived yet as a number (`%s`): a purely dynamic Skip hands its whole copy of the source to the next stage although its view is empty until the first count arrives" % (f.path, collapses[0][1]["callee"].split("::")[-1]))
+                else:
+                    ctx.verdict(True if sw_none else None, "R12.1", f, "skip-view-empty-until-count", f.loc(), "into_parts distinguishes count = None (empty view) from Some(count)")
         elif st.startswith("("):
             x = strip(e)
             ok = x[0] == "param" and x[1] == 1
